@@ -12,7 +12,8 @@ import SdnsVerif.Model.Packer
   `n` = nil; equal ids = the same pointer), a question `<packed len|E>:<uncompressed len>`.
   The packed lengths are what the library produced for each piece; the model's `tryPack`
   runs over the primitive "emit that many bytes if they fit" → `handled=t len=<n>` | `handled=f`.
-* everything else (`msg new|pack|clone|write`, `pool …`, `conc …`) is judged by the Go oracle only.
+* `pool inspect` → `clean` (the model's pool invariant)
+* everything else (`msg new|pack|clone|write`, `pool dirty`, `conc …`) is judged by the Go oracle only.
 -/
 namespace Driver.C15
 open SdnsVerif.Model SdnsVerif.Model.Packer SdnsVerif.Model.Util
@@ -158,6 +159,8 @@ def step (st : State) (w : List String) : State × String :=
     | some o => (st, o)
     | none => (st, "bad-op")
   | "msg" :: _ => (st, "unmodelled")
+  -- every state resting in the pool is `Clean` (theorem `pool_reuse_clean`)
+  | ["pool", "inspect"] => (st, "clean")
   | "pool" :: _ => (st, "unmodelled")
   | "conc" :: _ => (st, "unmodelled")
   | _ => (st, "bad-op")
